@@ -12,17 +12,45 @@ Open Scope list_scope.
 Theorem minc_preserves : forall mb mr levels sel inel g g', Inv g -> minc mb mr levels sel inel g = Ok g' -> Inv g'.
 Proof. exact minc_inv. Qed.
 Print Assumptions minc_preserves.
-(** adding two grids that live on the same objects: both consistent, and two of their blocks with the
-    same name are the same block (in particular: no block name in common) *)
-Theorem grid_add_preserves : forall g a b r, Inv (with_view g a) -> Inv (with_view g b) -> same_name_same_block g a b ->
+(** adding two grids that live on the same objects: both consistent, and a block of the first that has the name of a
+    different block of the second (the sum replaces it) has no connections -- add_block's precondition, lifted *)
+Theorem grid_add_preserves : forall g a b r, Inv (with_view g a) -> Inv (with_view g b) -> replaced_blocks_unconnected g a b ->
   grid_add g a b = Ok r -> Inv r.
 Proof. exact grid_add_inv. Qed.
 Print Assumptions grid_add_preserves.
+(** special cases of that precondition: same-named blocks of the two grids are the same object; no common block name *)
+Theorem grid_add_precondition_cases : forall g a b,
+  (same_name_same_block g a b -> replaced_blocks_unconnected g a b) /\
+  (common_name g a b = false -> same_name_same_block g a b).
+Proof. exact (fun g a b => conj (same_name_replaced g a b) (common_name_false g a b)). Qed.
+Print Assumptions grid_add_precondition_cases.
 (** embedding: both grids consistent, the connection object not one of theirs; nothing else *)
 Theorem embed_preserves : forall g a b j fits r, Inv (with_view g a) -> Inv (with_view g b) ->
   ~ In j (v_clist a) -> ~ In j (v_clist b) -> (j < next g)%positive -> embed g a b j fits = Ok (Some r) -> Inv r.
 Proof. exact embed_inv. Qed.
 Print Assumptions embed_preserves.
+
+(** the three preconditions cannot be dropped: the faithful model carries the listed findings *)
+Theorem add_block_replacing_connected_block_breaks_inv :
+  exists g n rk g', Inv g /\ add_block g n rk = Ok g' /\ ~ Inv g'.
+Proof. exact add_block_replace_refuted. Qed.
+Print Assumptions add_block_replacing_connected_block_breaks_inv.
+Theorem delete_rocktype_in_use_breaks_inv :
+  exists g n g', Inv g /\ delete_rocktype g n = Ok g' /\ ~ Inv g'.
+Proof. exact delete_rocktype_in_use_refuted. Qed.
+Print Assumptions delete_rocktype_in_use_breaks_inv.
+Theorem rename_rocktype_with_stale_object_breaks_inv :
+  exists g a b g', Inv g /\ rename_rocktype g a b = Ok g' /\ ~ Inv g'.
+Proof. exact rename_rocktype_stale_refuted. Qed.
+Print Assumptions rename_rocktype_with_stale_object_breaks_inv.
+
+(** the hypotheses are met by a non-trivial grid: two connected blocks, renamed by a swap *)
+Theorem example_pair_consistent : Inv g_pair.
+Proof. exact g_pair_inv. Qed.
+Print Assumptions example_pair_consistent.
+Theorem example_swap_is_one_to_one : inj_on_blocks g_pair [(a1, b1); (b1, a1)].
+Proof. exact swap_is_injective. Qed.
+Print Assumptions example_swap_is_one_to_one.
 
 (** ... and through __add__: the other grid has a block named like a connected block of this one *)
 Theorem grid_add_overlapping_connected_name_breaks_inv :
@@ -41,6 +69,9 @@ Print Assumptions inv_test_decides.
 Theorem example_two_grids_can_be_added : pre g_ab (AddGrid h_cd false).
 Proof. exact add_disjoint_pre. Qed.
 Print Assumptions example_two_grids_can_be_added.
+Theorem example_sum_replacing_an_unconnected_block : pre (with_view g_a2 (view_of g_pair)) (AddGrid (view_of g_a2) true).
+Proof. exact add_replacing_unconnected_pre. Qed.
+Print Assumptions example_sum_replacing_an_unconnected_block.
 Theorem example_mixed_sequence_meets_pre : pre_all g_ab ops_mix.
 Proof. exact mixed_sequence_pre. Qed.
 Print Assumptions example_mixed_sequence_meets_pre.
